@@ -16,14 +16,9 @@ def _sh(s):
     return re.sub(r"conv<<Operation as From<op_[a-z_]*::[A-Za-z]*>>::from>", "op", s)
 
 
-def _rec(d, key, good, msg, loc):
-    d.setdefault(key, [True, msg, loc])
-    if not good:
-        d[key] = [False, msg, loc]
+from ..engine import rec as _rec, emit as _emit, checked  # noqa: E402
 
 
-def _emit(d):
-    return [ok(k) if g else bad(k, m, l) for k, (g, m, l) in sorted(d.items())]
 
 
 @rule("MES-TABLE", ["C08", "C20", "C01", "C12"], floor=12)
@@ -131,7 +126,7 @@ def precond_check(ctx):
     if not loops:
         return [bad("loop", "check_preconditions has no loop", b.loc())]
     outer = max(loops, key=lambda x: len(loops[x]))
-    for p in ctx.walk(b, start_bb=outer, max_visits=1).paths:
+    for p in checked(d, "check_preconditions", b, ctx.walk(b, start_bb=outer, max_visits=1).paths, only=lambda p: p.end == "return"):
         gs, r = summarize(p)
         gs = [_sh(strip_ver(g)) for g in gs]
         r = _sh(strip_ver(r))
@@ -265,7 +260,7 @@ def parse_branch(ctx):
     if len(loops) != 1:
         return [bad("loop", "parse_branch must have exactly one loop", b.loc())]
     h = next(iter(loops))
-    for p in ctx.walk(b, start_bb=h, max_visits=1).paths:
+    for p in checked(d, "parse_branch", b, ctx.walk(b, start_bb=h, max_visits=1).paths, only=lambda p: p.end.startswith("loop") or (p.end == "return" and p.ret is not None and "Ok" in str(p.ret)[:40])):
         gs, r = summarize(p)
         gs = [_sh(strip_ver(g)) for g in gs]
         r = _sh(strip_ver(r))
